@@ -151,6 +151,8 @@ def flags(cls: str, d) -> tuple[bool, bool]:
 
 
 TYPED_INPUTS = True
+# Runners are only ever built from configurations the generators mean to be valid: a constructor that raises is not a case to skip silently
+FAILED_CONSTRUCTIONS: list = []
 
 
 def typed(value, cast):
@@ -184,6 +186,7 @@ class Runner:
             self.det = make(cls, params, callbacks=callbacks, config=config)
         except Exception as e:  # noqa: BLE001
             self.err = e
+            FAILED_CONSTRUCTIONS.append((cls, dict(params), f"{type(e).__name__}: {e}"))
             return
         self.lines.append(new_line(inst, cls, params))
         self.obs.append(obs(cls, self.det))
